@@ -767,6 +767,13 @@ func c09(c *core.Ctx) {
 		}
 		c.EndRule()
 	}
+
+	// ---------------------------------------------------------------- R6 (shared)
+	// the remaining time is computed for THIS request at the time it is issued: nothing a call builds (its header set
+	// with the timeout in it) is kept in a long-lived object or package variable for later calls to reuse (C01/R1) —
+	// a cached header set carries the timeout of the call that built it, so a later call on the same context tells
+	// the server more time than the caller has left
+	c.Borrow("C01", map[string]string{"R1": "R6"}, c01)
 }
 
 func stripCT(v ssa.Value) ssa.Value {
